@@ -155,6 +155,9 @@ def apply_pre(state: State, pre: List[Dict[str, Any]], env: simenv.SimEnv) -> No
     for f in pre:
         kind = f["kind"]
         path = _abs(state, f["path"]) if "path" in f else None
+        if path is not None and f["path"].startswith("@tmp/"):
+            # the directory restore_cpgraph extracts into: /tmp/ + archived path
+            path = "/tmp/" + state.world_dir.lstrip("/") + "/" + f["path"][len("@tmp/"):]
         if kind == "truncate":
             if path is None or not os.path.exists(path):
                 continue
